@@ -696,7 +696,7 @@ Definition field_fragment (f : sfield) : bool :=
 Definition def_okb (s : settings) (d : sdef) : bool :=
   match subs_get (s_subs s) (sd_path d) with Some _ => false | None => true end &&
   match sd_path d with _ :: _ :: _ => true | _ => false end &&
-  forallb ident_lexb (sd_path d) &&
+  forallb path_seg_okb (sd_path d) &&
   negb (String.eqb (last (sd_path d) "") "Cow").
 
 (** a [#[codec(compact)]] field whose Compact<..> type coincides with an argument is told apart
